@@ -7,13 +7,28 @@ namespace Memento.Version
 def FnTarget (P : Prog) (f g : Name) : Prop := g = f ∨ (ReachN P f g ∧ expands P g = true)
 
 /-- the program class of C01: `f` is automatically versioned and everything named in the closure is a memento
-    function (automatically or explicitly versioned), a plain function of the package, or a variable of a
-    supported type -/
+    function (automatically or explicitly versioned), a plain function of the package, a variable of a
+    supported type, or a name the modules do not define (a builtin such as `len`: an `UndefinedSymbol` rule) -/
 structure Tracked (P : Prog) (f : Name) : Prop where
   root : ∃ tok refs, lookup P f = some (.memento none tok refs)
   refs : ∀ p r, FnTarget P f p → RefersTo P p r →
     (∃ e tok refs, lookup P r = some (.memento e tok refs)) ∨
-    (∃ tok refs, lookup P r = some (.plain true tok refs)) ∨ (∃ v, lookup P r = some (.var (some v)))
+    (∃ tok refs, lookup P r = some (.plain true tok refs)) ∨ (∃ v, lookup P r = some (.var (some v))) ∨
+    lookup P r = none
+
+/-- rules for undefined names contribute no digest and the digest of a variable does not cover its name (remark R2), so
+    the theorem needs: a name that is undefined in one edition is not a *variable* in the other (it may become a function:
+    function digests cover their names) -/
+def UndefVarStable (P P' : Prog) : Prop :=
+  ∀ r, (lookup P r = none → ∀ v, lookup P' r ≠ some (.var (some v))) ∧
+       (lookup P' r = none → ∀ v, lookup P r ≠ some (.var (some v)))
+
+theorem UndefVarStable.symm {P P' : Prog} (h : UndefVarStable P P') : UndefVarStable P' P :=
+  fun r => ⟨(h r).2, (h r).1⟩
+
+theorem UndefVarStable.refl (P : Prog) : UndefVarStable P P := by
+  intro r
+  constructor <;> intro h v e <;> rw [h] at e <;> cases e
 
 /-- the user's side of an explicit version: a function that carries the same explicit version string in two
     editions has the same definition in both (whoever edits an explicitly versioned function changes the string) -/
@@ -48,10 +63,11 @@ theorem fnTarget_cases {P : Prog} {f g : Name} (hT : Tracked P f) (h : FnTarget 
   · obtain ⟨tok, refs, h⟩ := hT.root
     exact Or.inl ⟨none, tok, refs, h⟩
   · obtain ⟨p, hp, href⟩ := reachN_last hr
-    rcases hT.refs p g hp href with h | h | ⟨v, hv⟩
+    rcases hT.refs p g hp href with h | h | ⟨v, hv⟩ | hn
     · exact Or.inl h
     · exact Or.inr h
     · simp [expands, hv] at he
+    · simp [expands, hn] at he
 
 /-- what a rule's hash is the digest of -/
 def nodeSer (P : Prog) (x : Node) : Option Ser :=
@@ -75,26 +91,47 @@ theorem node_fnTarget {P : Prog} {f : Name} {x : Node} (hx : x ∈ rules P id f)
   · exact Or.inl rfl
   · exact fnTarget_step hp href (mkNode_kind_fn hmk hk)
 
-/-- in a tracked program every collected rule has a digest, and it is the digest of `nodeSer` -/
+/-- in a tracked program every collected rule either has a digest, and it is the digest of `nodeSer`, or is the rule of an
+    undefined name (no digest) -/
 theorem tracked_node {P : Prog} {f : Name} (H : Ser → List Char) (hT : Tracked P f) {x : Node}
-    (hx : x ∈ rules P id f) : ∃ s, nodeSer P x = some s ∧ ruleHash H P x = some (H s) := by
+    (hx : x ∈ rules P id f) :
+    (∃ s, nodeSer P x = some s ∧ ruleHash H P x = some (H s)) ∨
+    (x.kind = .undef ∧ ruleHash H P x = none ∧ lookup P x.target = none) := by
   rcases (mem_rules_nodeOK ordOK_id).mp hx with rfl | ⟨p, hp, href, hmk⟩
   · obtain ⟨tok, refs, hl⟩ := hT.root
-    exact ⟨.code true f tok refs, by simp [nodeSer, rootNode, hl], by simp [ruleHash, rootNode, hl]⟩
+    exact Or.inl ⟨.code true f tok refs, by simp [nodeSer, rootNode, hl], by simp [ruleHash, rootNode, hl]⟩
   · obtain ⟨k, par, t⟩ := x
     simp only at href hmk
-    rcases hT.refs p t hp href with ⟨e, tok, refs, hl⟩ | ⟨tok, refs, hl⟩ | ⟨v, hl⟩
+    rcases hT.refs p t hp href with ⟨e, tok, refs, hl⟩ | ⟨tok, refs, hl⟩ | ⟨v, hl⟩ | hl
     · have : mkNode P p t = some ⟨.mfn, some p, t⟩ := by simp [mkNode, hl]
       rw [this] at hmk; cases hmk
       cases e with
-      | none => exact ⟨.code true t tok refs, by simp [nodeSer, hl], by simp [ruleHash, hl]⟩
-      | some e => exact ⟨.explicit t e, by simp [nodeSer, hl], by simp [ruleHash, hl]⟩
+      | none => exact Or.inl ⟨.code true t tok refs, by simp [nodeSer, hl], by simp [ruleHash, hl]⟩
+      | some e => exact Or.inl ⟨.explicit t e, by simp [nodeSer, hl], by simp [ruleHash, hl]⟩
     · have : mkNode P p t = some ⟨.fn, some p, t⟩ := by simp [mkNode, hl]
       rw [this] at hmk; cases hmk
-      exact ⟨.code false t tok refs, by simp [nodeSer, hl], by simp [ruleHash, hl]⟩
+      exact Or.inl ⟨.code false t tok refs, by simp [nodeSer, hl], by simp [ruleHash, hl]⟩
     · have : mkNode P p t = some ⟨.gvar, some p, t⟩ := by simp [mkNode, hl]
       rw [this] at hmk; cases hmk
-      exact ⟨.value v, by simp [nodeSer, hl], by simp [ruleHash, hl]⟩
+      exact Or.inl ⟨.value v, by simp [nodeSer, hl], by simp [ruleHash, hl]⟩
+    · have : mkNode P p t = some ⟨.undef, some p, t⟩ := by simp [mkNode, hl]
+      rw [this] at hmk; cases hmk
+      exact Or.inr ⟨rfl, by simp [ruleHash], hl⟩
+
+/-- a rule with a digest: the digest is that of `nodeSer` -/
+theorem tracked_node_some {P : Prog} {f : Name} (H : Ser → List Char) (hT : Tracked P f) {x : Node}
+    (hx : x ∈ rules P id f) {h : List Char} (hr : ruleHash H P x = some h) :
+    ∃ s, nodeSer P x = some s ∧ h = H s := by
+  rcases tracked_node H hT hx with ⟨s, hs, hr'⟩ | ⟨_, hn, _⟩
+  · rw [hr'] at hr; cases hr; exact ⟨s, hs, rfl⟩
+  · rw [hn] at hr; cases hr
+
+/-- a rule with a `nodeSer` has the digest of it -/
+theorem tracked_node_ser {P : Prog} {f : Name} (H : Ser → List Char) (hT : Tracked P f) {x : Node}
+    (hx : x ∈ rules P id f) {s : Ser} (hs : nodeSer P x = some s) : ruleHash H P x = some (H s) := by
+  rcases tracked_node H hT hx with ⟨s', hs', hr'⟩ | ⟨hk, _, _⟩
+  · rw [hs] at hs'; cases hs'; exact hr'
+  · unfold nodeSer at hs; rw [hk] at hs; simp at hs
 
 /-- the list of rule digests in key order -/
 def hashList (H : Ser → List Char) (P : Prog) (f : Name) : List (List Char) :=
@@ -141,21 +178,19 @@ theorem hashList_width {H : Ser → List Char} (hw : ∀ s, (H s).length = 16) {
     (hT : Tracked P f) : ∀ s ∈ hashList H P f, s.length = 16 := by
   intro s hs
   obtain ⟨x, hx, hr⟩ := mem_hashList.mp hs
-  obtain ⟨ser, _, hr'⟩ := tracked_node H hT hx
-  rw [hr'] at hr; cases hr; exact hw ser
+  obtain ⟨ser, _, rfl⟩ := tracked_node_some H hT hx hr
+  exact hw ser
 
 /-- every digested object of `P`'s closure is a digested object of `P'`'s -/
 theorem transfer {H : Ser → List Char} (hinj : Function.Injective H) {P P' : Prog} {f : Name}
     (hT : Tracked P f) (hT' : Tracked P' f) (hh : hashList H P f = hashList H P' f)
     {x : Node} (hx : x ∈ rules P id f) {s : Ser} (hs : nodeSer P x = some s) :
     ∃ x' ∈ rules P' id f, nodeSer P' x' = some s := by
-  obtain ⟨s0, hs0, hr⟩ := tracked_node H hT hx
-  rw [hs] at hs0; cases hs0
+  have hr := tracked_node_ser H hT hx hs
   have : H s ∈ hashList H P' f := hh ▸ mem_hashList.mpr ⟨x, hx, hr⟩
   obtain ⟨x', hx', hr'⟩ := mem_hashList.mp this
-  obtain ⟨s', hs', hr''⟩ := tracked_node H hT' hx'
-  rw [hr''] at hr'
-  have : s' = s := hinj (Option.some.inj hr')
+  obtain ⟨s', hs', he⟩ := tracked_node_some H hT' hx' hr'
+  have : s' = s := (hinj he).symm
   exact ⟨x', hx', this ▸ hs'⟩
 
 theorem nodeSer_code {P : Prog} {x : Node} {salted : Bool} {g : Name} {tok : Tok} {refs : List Name}
@@ -257,10 +292,11 @@ structure Agree (H : Ser → List Char) (P P' : Prog) (f : Name) : Prop where
   t : Tracked P f
   t' : Tracked P' f
   disc : Disciplined P P'
+  uv : UndefVarStable P P'
   hh : hashList H P f = hashList H P' f
 
 theorem Agree.symm {H : Ser → List Char} {P P' : Prog} {f : Name} (h : Agree H P P' f) : Agree H P' P f :=
-  ⟨h.inj, h.t', h.t, h.disc.symm, h.hh.symm⟩
+  ⟨h.inj, h.t', h.t, h.disc.symm, h.uv.symm, h.hh.symm⟩
 
 theorem Agree.fn {H : Ser → List Char} {P P' : Prog} {f g : Name} (h : Agree H P P' f) (hg : FnTarget P f g) :
     FnTarget P' f g ∧ lookup P' g = lookup P g := fn_agree h.inj h.t h.t' h.disc h.hh hg
@@ -272,18 +308,26 @@ theorem mkNode_lookup_congr {P P' : Prog} {r : Name} (h : lookup P' r = lookup P
 /-- a name referred to from the closure is classified the same way in both programs -/
 theorem Agree.mkNode_eq {H : Ser → List Char} {P P' : Prog} {f p r : Name} (h : Agree H P P' f)
     (hp : FnTarget P f p) (href : RefersTo P p r) : mkNode P' p r = mkNode P p r := by
-  rcases h.t.refs p r hp href with ⟨e, tok, refs, hl⟩ | ⟨tok, refs, hl⟩ | ⟨v, hl⟩
+  obtain ⟨hp', hlp⟩ := h.fn hp
+  have href' : RefersTo P' p r := by
+    obtain ⟨d, hd, hr⟩ := href
+    exact ⟨d, hlp.trans hd, hr⟩
+  rcases h.t.refs p r hp href with ⟨e, tok, refs, hl⟩ | ⟨tok, refs, hl⟩ | ⟨v, hl⟩ | hl
   · exact mkNode_lookup_congr (h.fn (fnTarget_step hp href (by simp [expands, hl]))).2 p
   · exact mkNode_lookup_congr (h.fn (fnTarget_step hp href (by simp [expands, hl]))).2 p
-  · obtain ⟨hp', hlp⟩ := h.fn hp
-    have href' : RefersTo P' p r := by
-      obtain ⟨d, hd, hr⟩ := href
-      exact ⟨d, hlp.trans hd, hr⟩
-    rcases h.t'.refs p r hp' href' with ⟨e', tok, refs, hl'⟩ | ⟨tok, refs, hl'⟩ | ⟨v', hl'⟩
+  · rcases h.t'.refs p r hp' href' with ⟨e', tok, refs, hl'⟩ | ⟨tok, refs, hl'⟩ | ⟨v', hl'⟩ | hl'
     · have := (h.symm.fn (fnTarget_step hp' href' (by simp [expands, hl']))).2
       rw [hl, hl'] at this; cases this
     · have := (h.symm.fn (fnTarget_step hp' href' (by simp [expands, hl']))).2
       rw [hl, hl'] at this; cases this
+    · simp [mkNode, hl, hl']
+    · exact absurd hl ((h.uv r).2 hl' v)
+  · rcases h.t'.refs p r hp' href' with ⟨e', tok, refs, hl'⟩ | ⟨tok, refs, hl'⟩ | ⟨v', hl'⟩ | hl'
+    · have := (h.symm.fn (fnTarget_step hp' href' (by simp [expands, hl']))).2
+      rw [hl, hl'] at this; cases this
+    · have := (h.symm.fn (fnTarget_step hp' href' (by simp [expands, hl']))).2
+      rw [hl, hl'] at this; cases this
+    · exact absurd hl' ((h.uv r).1 hl v')
     · simp [mkNode, hl, hl']
 
 theorem Agree.rules_sub {H : Ser → List Char} {P P' : Prog} {f : Name} (h : Agree H P P' f) {x : Node}
@@ -302,19 +346,42 @@ theorem Agree.sortedRules_eq {H : Ser → List Char} {P P' : Prog} {f : Name} (h
   sortedRules_congr (fun _ => ⟨h.rules_sub, h.symm.rules_sub⟩)
 
 theorem filterMap_pointwise {α β : Type} {f g : α → Option β} : ∀ {l : List α},
-    (∀ x ∈ l, ∃ a, f x = some a) → (∀ x ∈ l, ∃ b, g x = some b) → l.filterMap f = l.filterMap g →
+    (∀ x ∈ l, (f x).isSome = (g x).isSome) → l.filterMap f = l.filterMap g →
     ∀ x ∈ l, f x = g x := by
   intro l
   induction l with
-  | nil => intro _ _ _ x hx; cases hx
+  | nil => intro _ _ x hx; cases hx
   | cons a t ih =>
-    intro hf hg h x hx
-    obtain ⟨fa, hfa⟩ := hf a List.mem_cons_self
-    obtain ⟨ga, hga⟩ := hg a List.mem_cons_self
-    simp only [List.filterMap_cons, hfa, hga, List.cons.injEq] at h
-    rcases List.mem_cons.mp hx with rfl | hx
-    · rw [hfa, hga, h.1]
-    · exact ih (fun y hy => hf y (List.mem_cons_of_mem _ hy)) (fun y hy => hg y (List.mem_cons_of_mem _ hy)) h.2 x hx
+    intro hfg h x hx
+    have ha := hfg a List.mem_cons_self
+    cases hfa : f a with
+    | none =>
+      have hga : g a = none := by
+        cases hg : g a with
+        | none => rfl
+        | some b => rw [hfa, hg] at ha; cases ha
+      simp only [List.filterMap_cons, hfa, hga] at h
+      rcases List.mem_cons.mp hx with rfl | hx
+      · rw [hfa, hga]
+      · exact ih (fun y hy => hfg y (List.mem_cons_of_mem _ hy)) h x hx
+    | some fa =>
+      cases hga : g a with
+      | none => rw [hfa, hga] at ha; cases ha
+      | some ga =>
+        simp only [List.filterMap_cons, hfa, hga, List.cons.injEq] at h
+        rcases List.mem_cons.mp hx with rfl | hx
+        · rw [hfa, hga, h.1]
+        · exact ih (fun y hy => hfg y (List.mem_cons_of_mem _ hy)) h.2 x hx
+
+/-- a rule has a digest unless it is the rule of an undefined name — in either program -/
+theorem tracked_isSome {P : Prog} {f : Name} (H : Ser → List Char) (hT : Tracked P f) {x : Node}
+    (hx : x ∈ rules P id f) : (ruleHash H P x).isSome = !(x.kind == .undef) := by
+  rcases tracked_node H hT hx with ⟨s, hs, hr⟩ | ⟨hk, hn, _⟩
+  · rw [hr]
+    have : x.kind ≠ .undef := by
+      intro hk; unfold nodeSer at hs; rw [hk] at hs; simp at hs
+    simp [this]
+  · rw [hn, hk]; rfl
 
 /-- rule by rule, the two programs give the same digest -/
 theorem Agree.ruleHash_eq {H : Ser → List Char} {P P' : Prog} {f : Name} (h : Agree H P P' f) {x : Node}
@@ -322,18 +389,27 @@ theorem Agree.ruleHash_eq {H : Ser → List Char} {P P' : Prog} {f : Name} (h : 
   have hh := h.hh
   unfold hashList at hh
   rw [← h.sortedRules_eq] at hh
-  refine filterMap_pointwise ?_ ?_ hh x (mem_sortedRules.mpr hx)
-  · intro y hy
-    obtain ⟨s, _, hr⟩ := tracked_node H h.t (mem_sortedRules.mp hy)
-    exact ⟨_, hr⟩
-  · intro y hy
-    obtain ⟨s, _, hr⟩ := tracked_node H h.t' (h.rules_sub (mem_sortedRules.mp hy))
-    exact ⟨_, hr⟩
+  refine filterMap_pointwise ?_ hh x (mem_sortedRules.mpr hx)
+  intro y hy
+  rw [tracked_isSome H h.t (mem_sortedRules.mp hy), tracked_isSome H h.t' (h.rules_sub (mem_sortedRules.mp hy))]
 
 /-- **closures agree**: every name of the closure is bound to the same definition in both programs -/
 theorem Agree.lookup_eq {H : Ser → List Char} {P P' : Prog} {f p r : Name} (h : Agree H P P' f)
     (hp : FnTarget P f p) (href : RefersTo P p r) : lookup P' r = lookup P r := by
-  rcases h.t.refs p r hp href with ⟨e0, tok, refs, hl⟩ | ⟨tok, refs, hl⟩ | ⟨v, hl⟩
+  rcases h.t.refs p r hp href with ⟨e0, tok, refs, hl⟩ | ⟨tok, refs, hl⟩ | ⟨v, hl⟩ | hl
+  rotate_right
+  · -- undefined in `P`: the rule is an `undef` rule in both programs, which only an undefined name gives
+    have hmk := h.mkNode_eq hp href
+    have : mkNode P p r = some ⟨.undef, some p, r⟩ := by simp [mkNode, hl]
+    rw [this] at hmk
+    rw [hl]
+    unfold mkNode at hmk
+    split at hmk
+    · assumption
+    · cases hmk
+    · split at hmk <;> cases hmk
+    · cases hmk
+    · cases hmk
   · exact (h.fn (fnTarget_step hp href (by simp [expands, hl]))).2
   · exact (h.fn (fnTarget_step hp href (by simp [expands, hl]))).2
   · have hx : (⟨.gvar, some p, r⟩ : Node) ∈ rules P id f :=
@@ -391,9 +467,10 @@ theorem inClos_fn {P : Prog} {f n : Name} (hT : Tracked P f) (hn : InClos P f n)
   rcases hn with hn | ⟨p, hp, href⟩
   · exact hn
   · obtain ⟨e, tok, refs, hl⟩ := he
-    rcases hT.refs p n hp href with ⟨e2, t2, r2, h2⟩ | ⟨t2, r2, h2⟩ | ⟨v, h2⟩
+    rcases hT.refs p n hp href with ⟨e2, t2, r2, h2⟩ | ⟨t2, r2, h2⟩ | ⟨v, h2⟩ | h2
     · exact fnTarget_step hp href (by simp [expands, h2])
     · exact fnTarget_step hp href (by simp [expands, h2])
+    · rcases hl with hl | ⟨b, hl⟩ <;> (rw [h2] at hl; cases hl)
     · rcases hl with hl | ⟨b, hl⟩ <;> (rw [h2] at hl; cases hl)
 
 theorem Agree.eval_eq {H : Ser → List Char} {P P' : Prog} {f : Name} (h : Agree H P P' f) (a : Nat) :
